@@ -89,7 +89,7 @@ CHECKS = {
         "model_checking",
         "bounded-exhaustive enumeration of (per-path outcome vector x solver reply vector x --early-exit x --cache-solver x completion order x reply-delivery order) for a generated k-path test, each executed by the real run_contract / _main with a scripted solver and compared with a reference verdict function",
         "A generated test with k <= 2 (thorough 3) guarded paths plus a default path; each path ends in success, revert, Panic(1), the DSTest fail flag or an unsupported opcode (stuck). The reply to each path's query is scripted from {sat + model, sat + model interpreting an abstraction followed by the refined query's reply, unsat (with an unsat core when the "
-        "query names its assertions), unknown, time limit expired, empty output, garbage, non-zero exit with sat, crash} (quick: 7 of them), with and without --early-exit and --cache-solver. Concurrent queries are completed in every order (--solver-threads = number of queries, delayed replies), and for tests with a stuck path the two orders `replies delivered "
+        "query names its assertions), unsat with an empty core, unknown, time limit expired, empty output, garbage, non-zero exit with sat, crash} (quick: 8 of them), with and without --early-exit and --cache-solver. Concurrent queries are completed in every order (--solver-threads = number of queries, delayed replies), and for tests with a stuck path the two orders `replies delivered "
         "before / after the main thread confirms the stuck path` are both taken. The TestResult exit code must equal the reference verdict FAIL > ERROR > TIMEOUT > ERROR(stuck) > ERROR(all reverted) > PASS computed from the collection of outcomes alone; through _main (stub forge) the process exit code is non-zero iff the selected test did not pass.",
         "Trusted: the reference verdict function (DESIGN B.3) and the scripted solver in props/c05_verdict.py (seam: halmos.solve.PopenFuture replaced in the harness process; the subprocess layer itself is C17's subject). Completion orders are produced with real solver threads and delays, not with a controlled scheduler.",
         "DESIGN.md §4 C05",
@@ -185,7 +185,7 @@ CHECKS = {
         "Projects: a test contract whose setUp() CREATEs 1-2 targets built from {inc, dec, set(uint8), rng(uint8), setb(uint8), step, pay, tick, own, bad, dbl} (all subsets of size <= 2, selected / thorough all triples), invariants s != c, s <= 1, t <= 1, t <= block.timestamp (time never runs backwards along a sequence), --invariant-depth 0..3, and for a two-target project every "
         "combination (quick: up to two kinds at a time) of targetSenders/excludeSenders/targetContracts/excludeContracts/targetSelectors (incl. several entries for one address)/excludeSelectors. The reference runs the same bytecode on mc/refevm.py: BFS over all sequences of admitted calls with arguments, senders, "
         "msg.value and timestamp increments from small domains that are complete for this grammar. Oracles: an invariant broken by a sequence of <= d calls <=> halmos FAIL at depth d; every target state reached by the reference in k calls is an instance of a cached frontier state of depth <= k (storage terms and path "
-        "conditions grounded over a finite assignment domain), so over-merging, an off-by-one in the depth loop or a dropped target shows up as an unrepresented state; every call recorded in the frontier call sequences is admitted by Foundry's filter rules; a reachable assertion failure inside a target must be reported and fail.",
+        "conditions grounded over a finite assignment domain), so over-merging, an off-by-one in the depth loop or a dropped target shows up as an unrepresented state; every call recorded in the frontier call sequences is admitted by Foundry's filter rules; a reachable assertion failure inside a target must be reported and fail; every counterexample marked valid is turned back into a concrete call sequence (calldata, senders, values and the timeline from the model) and replayed on the reference EVM, where every call must succeed and the invariant must then fail.",
         "Trusted: mc/invgen.py (project generator, Foundry filter resolution as documented, BFS), mc/refevm.py. msg.value is not moved by the top-level message (halmos modelling decision) and tx.origin is over-approximated: targets only read msg.value, never tx.origin. Two open findings are listed in known_findings.json.",
         "DESIGN.md §4 C15",
         "A",
